@@ -4,8 +4,10 @@ import DnsVerif.Model.Wrs
 /-
 C11 driver. Ops:
 
-  wrs     <max> <w:draw:fam;...>    fam = 4 | 6 | x (unsupported type); draws avoid 0 and 2^32-1
-  wrsedge <max> <w:draw:fam;...>    same, draws 0 and 2^32-1 allowed (no property oracle there)
+  wrs     <max> <w:draw:fam;...>    fam = 4 | 6 | x (unsupported type); any weight, any 32-bit draw
+                                    (0 and 2^32-1 included); the draw of a weight-0 candidate is
+                                    not consumed by the code (no key is computed for it)
+  wrsedge <max> <w:draw:fam;...>    synonym of `wrs` (older corpora)
   wrsstat <w,w,...>                 statistical test on the implementation only; model says `ok`
 
 Output of wrs/wrsedge: `4=<sorted candidate indices|_>/6=<...>/w=<0|1>/e=<#Add errors>` or
@@ -44,18 +46,19 @@ def maxU32 : Nat := 4294967295
 def keyOf (c : C) : Float :=
   Float.pow (Float.ofNat c.draw * (1.0 / Float.ofNat maxU32)) (1.0 / Float.ofNat c.weight)
 
-/-- keys that are exact on both sides whatever the `pow` implementation: 0, or `pow(1, y) = 1`,
-or `pow(x, +Inf)` -/
-def special (c : C) : Bool := c.draw == 0 || c.draw == maxU32 || c.weight == 0
+/-- keys that are exact on both sides whatever the `pow` implementation: `pow(0, y) = 0` and
+`pow(1, y) = 1` (`fl(4294967295 · fl(1/4294967295)) = 1.0`) -/
+def special (c : C) : Bool := c.draw == 0 || c.draw == maxU32
 
 /-- smallest relative distance between two keys the code may compare and whose order could depend
-on the last bit of `pow` -/
+on the last bit of `pow` (a weight-0 candidate has no key) -/
 def minRel (cs : List C) : Float :=
   let rec outer : List C → Float → Float
     | [], acc => acc
     | c :: rest, acc =>
       let acc' := rest.foldl (fun a d =>
         if c.fam ≠ d.fam || c.fam == 0 then a
+        else if c.weight == 0 || d.weight == 0 then a
         else if special c && special d then a
         else if c.weight == d.weight && c.draw == d.draw then a
         else
@@ -78,11 +81,11 @@ def runModel (max : Int) (cs : List C) : String :=
   -- the callers' loop, counting errors
   let (st, errs, _) := cs.foldl (fun (acc : State Float Nat × Nat × Nat) c =>
     let (st, errs, i) := acc
-    match st.add (famQtype c.fam) ⟨keyOf c, i⟩ with
+    match st.add (famQtype c.fam) c.weight ⟨keyOf c, i⟩ with
     | .ok st' => (st', errs, i + 1)
     | .error _ => (st, errs + 1, i + 1)) (({ maxAnswers := max } : State Float Nat), 0, 0)
-  let a := (st.aRecord (0.0 : Float)).map (·.val)
-  let b := (st.aaaaRecord (0.0 : Float)).map (·.val)
+  let a := st.aRecord.map (·.val)
+  let b := st.aaaaRecord.map (·.val)
   s!"4={renderIdx a}/6={renderIdx b}/w={if st.weightedAnswer then 1 else 0}/e={errs}"
 
 /-! Spec oracle: the property statement evaluated on the implementation's output, without the
@@ -147,7 +150,7 @@ def handle (st : St) (op : String) (args : List String) (impl : Option String) :
       let r := minRel cs
       let near := r ≤ 0.5e-12 || (impl == some "near-tie" && r ≤ 2e-12)
       let model := if near then "near-tie" else runModel max cs
-      let spec := if op = "wrs" then specWrs max cs impl else "-"
+      let spec := specWrs max cs impl
       some (st, { model := model, spec := spec })
     | _, _ => none
   | "wrsstat", [_] => some (st, { model := "ok" })
